@@ -344,3 +344,212 @@ def c18_oracle(tag, q, cpp):
                         % (names[k], bool(q[k]), exp[k], "nothrow" if mc else "throwing", "nothrow" if ma else "throwing",
                            "nothrow" if sw else "throwing", n, al)))
     return bad
+
+
+# ------------------------------------------------------------------------------------------------
+# C13 (2): conversion grid
+
+ARITH = [  # key, C++ type, kind, bits, signed
+    ("bool", "bool", "bool", 1, False),
+    ("char", "char", "int", 8, True),
+    ("schar", "signed char", "int", 8, True),
+    ("uchar", "unsigned char", "int", 8, False),
+    ("c16", "char16_t", "int", 16, False),
+    ("short", "short", "int", 16, True),
+    ("ushort", "unsigned short", "int", 16, False),
+    ("int", "int", "int", 32, True),
+    ("uint", "unsigned int", "int", 32, False),
+    ("long", "long", "int", 64, True),
+    ("ulong", "unsigned long", "int", 64, False),
+    ("llong", "long long", "int", 64, True),
+    ("e8", "E8", "enum", 8, False),
+    ("e32", "E32", "enum", 32, True),
+    ("float", "float", "fp", 32, True),
+    ("double", "double", "fp", 64, True),
+]
+
+CONV_PRELUDE = r'''
+#include "conv.hpp"
+enum E8 : unsigned char { E8_zero = 0, E8_max = 255 };
+enum E32 : int { E32_min = -2147483647 - 1, E32_max = 2147483647 };
+struct B1 { int a; };
+struct B2 { int b; };
+struct D : B1, B2 { int d; };
+struct VB { int vb; };
+struct DV : virtual VB { int dv; };
+'''
+
+
+def int_range(bits, signed):
+    return (-(1 << (bits - 1)), (1 << (bits - 1)) - 1) if signed else (0, (1 << bits) - 1)
+
+
+def int_lit(v):
+    if v == -(1 << 63):
+        return "(-9223372036854775807LL - 1)"
+    if v > (1 << 63) - 1:
+        return "%dULL" % v
+    return "%dLL" % v
+
+
+def conv_values(to, frm, tier):
+    """C++ statements filling c.vals for the cell To <- From (only values whose conversion is defined)."""
+    tk, tt, tkind, tbits, tsigned = to
+    fk, ft, fkind, fbits, fsigned = frm
+    if fkind == "bool":
+        return "c.vals.push_back (false); c.vals.push_back (true); c.vals.push_back (true); c.vals.push_back (false);"
+    if fkind in ("int", "enum"):
+        lo, hi = int_range(fbits, fsigned)
+        if fbits == 8 or (fbits == 16 and tier == "thorough"):
+            return "for (long i = %d; i <= %d; ++i) c.vals.push_back (static_cast<%s> (i));" % (lo, hi, ft)
+        cands = set()
+        for b in (7, 8, 15, 16, 31, 32, 63, 64):
+            for d in (-1, 0, 1):
+                cands.add((1 << b) + d)
+                cands.add(-(1 << b) + d)
+        cands |= {0, 1, 2, -1, -2, 100, -100, lo, hi, lo + 1, hi - 1}
+        vals = sorted(v for v in cands if lo <= v <= hi)
+        return " ".join("c.vals.push_back (static_cast<%s> (%s));" % (ft, int_lit(v)) for v in vals)
+    # floating point source
+    if tkind in ("int", "enum"):
+        lo, hi = int_range(tbits, tsigned)
+        vals = ["0.0", "0.5", "1.0", "1.5", "100.75", "127.0", "-0.5"]
+        if tsigned:
+            vals += ["-1.0", "-100.75", "-128.0"]
+        return " ".join("c.vals.push_back (static_cast<%s> (%s));" % (ft, v) for v in vals)
+    if tkind == "bool":
+        vals = ["0.0", "0.5", "1.0", "-3.25", "-0.0"]
+        return " ".join("c.vals.push_back (static_cast<%s> (%s));" % (ft, v) for v in vals)
+    vals = ["0.0", "-0.0", "0.5", "-3.25", "1024.0", "1e10f" if ft == "float" else "33554432.0",
+            "std::numeric_limits<%s>::infinity ()" % ft, "-std::numeric_limits<%s>::infinity ()" % ft,
+            "std::numeric_limits<%s>::quiet_NaN ()" % ft]
+    return " ".join("c.vals.push_back (static_cast<%s> (%s));" % (ft, v) for v in vals)
+
+
+def conv_cell(to, frm, tier):
+    return ("  { conv::Cell<%s, %s> c; c.to_name = \"%s\"; c.from_name = \"%s\"; %s c.run (); }\n"
+            % (to[1], frm[1], to[1], frm[1], conv_values(to, frm, tier)))
+
+
+def conv_rows(tier):
+    """[(row key, [(cell key, code)])]"""
+    rows = []
+    for to in ARITH:
+        if to[2] == "enum":
+            cells = [(to[0] + "<-" + to[0], conv_cell(to, to, tier))]   # only the identity converts implicitly
+        else:
+            cells = [(to[0] + "<-" + f[0], conv_cell(to, f, tier)) for f in ARITH]
+        rows.append((to[0], cells))
+    # pointer rows
+    ptr = []
+
+    def pcell(key, to_t, from_t, fill):
+        ptr.append((key, "  { conv::Cell<%s, %s> c; c.to_name = \"%s\"; c.from_name = \"%s\"; %s c.run (); }\n"
+                    % (to_t, from_t, to_t, from_t, fill)))
+
+    arr_int = "static int ai[4] = {1, 2, 3, 4}; c.vals.push_back (ai); c.vals.push_back (0); c.vals.push_back (ai + 3); c.vals.push_back (ai + 1); c.vals.push_back (0);"
+    arr_cint = "static const int ci[4] = {1, 2, 3, 4}; c.vals.push_back (ci); c.vals.push_back (0); c.vals.push_back (ci + 3); c.vals.push_back (ci + 1);"
+    arr_d = "static D ad[4]; c.vals.push_back (ad); c.vals.push_back (0); c.vals.push_back (ad + 3); c.vals.push_back (ad + 1); c.vals.push_back (ad + 2);"
+    arr_dv = "static DV adv[4]; c.vals.push_back (adv); c.vals.push_back (0); c.vals.push_back (adv + 3); c.vals.push_back (adv + 1);"
+    pcell("cintp<-intp", "const int *", "int *", arr_int)
+    pcell("voidp<-intp", "void *", "int *", arr_int)
+    pcell("cvoidp<-cintp", "const void *", "const int *", arr_cint)
+    pcell("intp<-intp", "int *", "int *", arr_int)
+    pcell("B1p<-Dp", "B1 *", "D *", arr_d)
+    pcell("B2p<-Dp", "B2 *", "D *", arr_d)
+    pcell("cB2p<-Dp", "const B2 *", "D *", arr_d)
+    pcell("VBp<-DVp", "VB *", "DV *", arr_dv)
+    rows.append(("pointers", ptr))
+    return rows
+
+
+def conv_source(row_key, cells):
+    body = "".join(code for _, code in cells)
+    text = CONV_PRELUDE + "#include <limits>\nint main ()\n{\n" + body + "  conv::report (\"%s\");\n  return 0;\n}\n" % row_key
+    return write_gen("conv_%s.cpp" % row_key.replace("<-", "_from_"), text)
+
+
+# ------------------------------------------------------------------------------------------------
+# C13 (3): archetype grid. One tiny program per (operation, archetype, twin).
+
+def archetype(name, dc, cc, mc, ca, ma, trivial):
+    """Element type X with exactly the listed special members (others deleted); `trivial` selects the
+    defaulted (trivial) or the user-provided (non-trivial) twin."""
+    def member(enabled, decl_default, decl_user, decl_delete):
+        if not enabled:
+            return decl_delete
+        return decl_default if trivial else decl_user
+    lines = ["struct X", "{", "  int v;", "  explicit X (int a) : v (a) { }"]
+    lines.append(member(dc, "  X () = default;", "  X () : v (0) { }", "  X () = delete;"))
+    lines.append(member(cc, "  X (const X&) = default;", "  X (const X& o) : v (o.v) { }", "  X (const X&) = delete;"))
+    if mc is not None:
+        lines.append(member(mc, "  X (X&&) = default;", "  X (X&& o) noexcept : v (o.v) { }", "  X (X&&) = delete;"))
+    lines.append(member(ca, "  X& operator= (const X&) = default;", "  X& operator= (const X& o) { v = o.v; return *this; }",
+                        "  X& operator= (const X&) = delete;"))
+    if ma is not None:
+        lines.append(member(ma, "  X& operator= (X&&) = default;", "  X& operator= (X&& o) noexcept { v = o.v; return *this; }",
+                            "  X& operator= (X&&) = delete;"))
+    if not trivial:
+        lines.append("  ~X () { v = -7; }")
+    lines.append("};")
+    return "\n".join(lines) + "\n"
+
+
+ARCH_PRELUDE = r'''
+#include <gch/small_vector.hpp>
+#include <cstdio>
+#include <iterator>
+#include <utility>
+%s
+typedef gch::small_vector<X, 3> SV;
+static void show (const char *what, const SV& v)
+{
+  std::printf ("%%s: size %%u [", what, unsigned (v.size ()));
+  for (unsigned k = 0; k < v.size (); ++k) std::printf ("%%s%%d", k ? "," : "", v.data ()[k].v);
+  std::printf ("]\n");
+}
+int main ()
+{
+%s
+  return 0;
+}
+'''
+
+# (operation, archetype flags (dc, cc, mc, ca, ma), body). None for mc/ma = "not declared"
+# (a declared copy operation then suppresses the implicit move, rvalues bind to the copy).
+ARCH_CASES = [
+    ("ctor_n/default-only", (1, 0, 0, 0, 0), "SV v (5); show (\"ctor(5)\", v); SV w (2); show (\"ctor(2)\", w);"),
+    ("resize/default+move", (1, 0, 1, 0, 0), "SV v (1); v.resize (5); show (\"resize(5)\", v); v.resize (2); show (\"resize(2)\", v);"),
+    ("ctor_n_val/copy-ctor-only", (0, 1, None, 0, None), "X x (7); SV v (5, x); show (\"ctor(5,x)\", v); SV w (2, x); show (\"ctor(2,x)\", w);"),
+    ("push_back/copy-ctor-only", (0, 1, None, 0, None), "X x (7); SV v; for (int k = 0; k < 6; ++k) v.push_back (x); show (\"push_back x6\", v);"),
+    ("emplace_back/move-ctor-only", (0, 0, 1, 0, 0), "SV v; for (int k = 0; k < 6; ++k) v.emplace_back (k); show (\"emplace_back x6\", v);"),
+    ("reserve+shrink/move-ctor-only", (0, 0, 1, 0, 0), "SV v; v.emplace_back (1); v.reserve (9); v.emplace_back (2); v.shrink_to_fit (); show (\"reserve/shrink\", v);"),
+    ("resize_val/copy-ctor-only", (0, 1, None, 0, None), "X x (4); SV v; v.resize (5, x); show (\"resize(5,x)\", v); v.resize (1, x); show (\"resize(1,x)\", v);"),
+    ("range_ctor/copy-ctor-only", (0, 1, None, 0, None), "X a[4] = { X (1), X (2), X (3), X (4) }; SV v (a, a + 4); show (\"range ctor\", v); SV w (a, a + 2); show (\"range ctor 2\", w);"),
+    ("append_range/copy-ctor-only", (0, 1, None, 0, None), "X a[4] = { X (1), X (2), X (3), X (4) }; SV v; v.append (a, a + 2); v.append (a, a + 4); show (\"append\", v);"),
+    ("assign_range/copy-ctor-only", (0, 1, None, 0, None), "X a[4] = { X (1), X (2), X (3), X (4) }; SV v (a, a + 2); v.assign (a, a + 4); show (\"assign 4\", v); v.assign (a, a + 1); show (\"assign 1\", v);"),
+    ("copy_ctor/copy-ctor-only", (0, 1, None, 0, None), "X a[4] = { X (1), X (2), X (3), X (4) }; SV v (a, a + 4); SV w (v); show (\"copy\", w); SV s (a, a + 2); SV t (s); show (\"copy small\", t);"),
+    ("move_ctor/move-ctor-only", (0, 0, 1, 0, 0), "SV v; for (int k = 0; k < 2; ++k) v.emplace_back (k); SV w (std::move (v)); show (\"move inline\", w); for (int k = 0; k < 4; ++k) w.emplace_back (k); SV u (std::move (w)); show (\"move heap\", u);"),
+    ("pop_clear/move-ctor-only", (0, 0, 1, 0, 0), "SV v; for (int k = 0; k < 5; ++k) v.emplace_back (k); v.pop_back (); show (\"pop\", v); v.clear (); show (\"clear\", v);"),
+    ("insert/copyable+assignable", (0, 1, None, 1, None), "X x (9); SV v; for (int k = 0; k < 3; ++k) v.push_back (X (k)); v.insert (v.begin () + 1, x); show (\"insert realloc\", v); v.insert (v.begin (), x); show (\"insert in place\", v);"),
+    ("insert_n/copyable+assignable", (0, 1, None, 1, None), "X x (9); SV v; for (int k = 0; k < 3; ++k) v.push_back (X (k)); v.reserve (16); v.insert (v.begin () + 1, 2, x); show (\"insert n\", v); v.insert (v.begin () + 4, 5, x); show (\"insert n tail\", v);"),
+    ("erase/movable+move-assignable", (0, 0, 1, 0, 1), "SV v; for (int k = 0; k < 6; ++k) v.emplace_back (k); v.erase (v.begin () + 1); show (\"erase\", v); v.erase (v.begin (), v.begin () + 2); show (\"erase range\", v);"),
+    ("emplace/movable+move-assignable", (0, 0, 1, 0, 1), "SV v; for (int k = 0; k < 3; ++k) v.emplace_back (k); v.emplace (v.begin () + 1, 9); show (\"emplace realloc\", v); v.emplace (v.begin (), 8); show (\"emplace in place\", v);"),
+    ("assign_n/copyable+assignable", (0, 1, None, 1, None), "X x (5); SV v; v.assign (6, x); show (\"assign 6\", v); v.assign (2, X (3)); show (\"assign 2\", v);"),
+    ("swap/movable+move-assignable", (0, 0, 1, 0, 1), "SV v, w; for (int k = 0; k < 2; ++k) v.emplace_back (k); for (int k = 0; k < 5; ++k) w.emplace_back (10 + k); v.swap (w); show (\"swap a\", v); show (\"swap b\", w);"),
+    ("move_assign/movable+move-assignable", (0, 0, 1, 0, 1), "SV v, w; for (int k = 0; k < 2; ++k) v.emplace_back (k); for (int k = 0; k < 3; ++k) w.emplace_back (10 + k); w = std::move (v); show (\"move assign\", w);"),
+    ("copy_assign/copyable+assignable", (0, 1, None, 1, None), "SV v, w; for (int k = 0; k < 2; ++k) v.push_back (X (k)); for (int k = 0; k < 5; ++k) w.push_back (X (10 + k)); SV u; u = w; show (\"copy assign grow\", u); w = v; show (\"copy assign shrink\", w);"),
+    ("default+assign-with-nontrivial-assign/ctor_n", (1, 1, None, 1, None), "SV v (4); show (\"ctor(4)\", v); v.resize (6); show (\"resize(6)\", v);"),
+]
+
+
+def arch_sources():
+    out = []
+    for (name, (dc, cc, mc, ca, ma), body) in ARCH_CASES:
+        pair = []
+        for trivial in (True, False):
+            text = ARCH_PRELUDE % (archetype(name, dc, cc, mc, ca, ma, trivial), "  " + body)
+            fn = "arch_%s_%s.cpp" % (name.replace("/", "_").replace("+", "_"), "triv" if trivial else "nontriv")
+            pair.append(write_gen(fn, text))
+        out.append((name, pair[0], pair[1]))
+    return out
